@@ -165,6 +165,7 @@ static void explore_program (OrcProgram * p, const char *text, long pidx)
     snprintf (key, sizeof (key), "C01|%s|%s|%s", t->name, opsig (p), kinds_sig (p));
     v_case (pidx, key, text ? text : oprog_oneline (p));
     v_watchdog (120);
+    orc_program_reset (p);	/* a failed compile for one target leaves its error on the program until reset */
     res = orc_program_compile_full (p, t->target, t->flags);
     if (!ORC_COMPILE_RESULT_IS_SUCCESSFUL (res)) { st_nocompile++; continue; }
     st_compiled++;
